@@ -51,9 +51,10 @@ def run(tier, seed, corrupt=False):
         if bases.get(f"base:{ty}") != "value":
             v.mismatch(f"wire:{ty}:valid-encoding-not-accepted", {"outcome": bases.get(f"base:{ty}")})
     applied = 0
+    forged = next((c["id"] for c in cases if by_id[c["id"]]["applied"]), None) if corrupt else None
     for c in cases:
         res = by_id[c["id"]]
-        o = "forged-panic" if (corrupt and c["id"] == 7) else res["outcome"]
+        o = "forged-panic" if c["id"] == forged else res["outcome"]
         k = f'{c["ty"]}:{o.split(":")[0]}'
         outcomes[k] = outcomes.get(k, 0) + 1
         if not res["applied"]:
